@@ -98,6 +98,14 @@ func checkC04(c *Ctx) {
 	// "the answer to a request does not depend on any earlier request" (stateless) and "served in that session"
 	// (stateful): the session a request is dispatched on is looked up or created for it, never a shared member
 	dispatchOwnContext(c, "R-own-session")
+	c04SwitchStaysOff(c)
+	// "DELETE ends the session together with its open stream": the stream table rules of C11 (among them: the stream's
+	// handler waits on the context that the registered cancel function cancels) are necessary here too
+	{
+		expl, nd, as := c.R.Explanation, c.R.NotDecided, c.R.Assumptions
+		checkC11(c)
+		c.R.Explanation, c.R.NotDecided, c.R.Assumptions = expl+" The listening-stream table rules of C11 are evaluated as well.", nd, as
+	}
 	x := &c04ctx{c: c, guardFlags: map[string]bool{}, accs: CollectAccesses(c), inserters: map[*ssa.Function]bool{}, deleters: map[*ssa.Function]bool{}, lookers: map[*ssa.Function]bool{},
 		reachCache: map[*ssa.Function]map[*ssa.Function]bool{}}
 
@@ -1168,4 +1176,108 @@ func (x *c04ctx) flagWired() {
 	}
 	c.R.Min("R-flag-wired", 2)
 	_ = n
+}
+
+// c04SwitchStaysOff (R-session-switch): sessions are switched off by an option that clears the session manager and a
+// boolean member along with it (discovered, as for C06's R-nil-member). Nothing else on the construction path may switch
+// that member back on unconditionally: a store of `true` into it outside the constructor's own literal must be control
+// dependent on something in its function, or — for an option closure — every call that creates and applies that option
+// must be conditional. Otherwise a server configured without sessions issues session ids and refuses requests that
+// carry none.
+func c04SwitchStaysOff(c *Ctx) {
+	// the switch: bool members cleared in a function that also sets an interface/pointer member to nil
+	switches := map[string]bool{}
+	for _, fn := range c.P.LibFns {
+		var falses []string
+		nils := false
+		ir.EachInstr(fn, func(_ *ssa.BasicBlock, _ int, in ssa.Instruction) {
+			st, ok := in.(*ssa.Store)
+			if !ok {
+				return
+			}
+			fa, ok := st.Addr.(*ssa.FieldAddr)
+			if !ok {
+				return
+			}
+			key, _, typ, base := ir.FullField(fa)
+			if key == "" || ir.BaseAlloc(base) {
+				return
+			}
+			if ir.IsNilConst(st.Val) {
+				switch typ.Underlying().(type) {
+				case *types.Interface, *types.Pointer:
+					nils = true
+				}
+			}
+			if cst, ok := st.Val.(*ssa.Const); ok && cst.Value != nil && cst.Value.String() == "false" {
+				falses = append(falses, key)
+			}
+		})
+		if nils {
+			for _, k := range falses {
+				if strings.Contains(strings.ToLower(k), "session") {
+					switches[k] = true
+				}
+			}
+		}
+	}
+	n := 0
+	for _, fn := range c.P.LibFns {
+		if clientSide(c, fn) {
+			continue
+		}
+		var pd *flow.PostDom
+		ir.EachInstr(fn, func(_ *ssa.BasicBlock, _ int, in ssa.Instruction) {
+			st, ok := in.(*ssa.Store)
+			if !ok {
+				return
+			}
+			fa, ok := st.Addr.(*ssa.FieldAddr)
+			if !ok {
+				return
+			}
+			key, _, _, base := ir.FullField(fa)
+			if !switches[key] || ir.BaseAlloc(base) {
+				return
+			}
+			cst, ok := st.Val.(*ssa.Const)
+			if !ok || cst.Value == nil || cst.Value.String() != "true" {
+				return
+			}
+			n++
+			if pd == nil {
+				pd = flow.NewPostDom(fn)
+			}
+			conditional := len(pd.ControlDepsTransitive(st.Block())) > 0
+			where := fname(fn)
+			if !conditional && fn.Parent() != nil {
+				// an option closure: conditional if every application of the option is
+				maker := fn.Parent()
+				sites, all := 0, true
+				for _, e := range ir.Callers(c.G, maker) {
+					if e.Site == nil || !c.P.IsLib(e.Caller.Func) {
+						continue
+					}
+					sites++
+					if len(flow.NewPostDom(e.Caller.Func).ControlDepsTransitive(e.Site.Block())) == 0 {
+						all = false
+						where = fname(fn) + ", applied unconditionally by " + fname(e.Caller.Func)
+					}
+				}
+				conditional = sites > 0 && all
+			}
+			c.R.Check(conditional, "R-session-switch", "switch "+key+" turned on in "+fname(fn), c.Pos(st.Pos()),
+				"only under a condition (a mode that was asked for)",
+				sprintf("%s is set to true unconditionally on the construction path (%s): the option that switches sessions off has no effect, and a server configured without sessions issues session ids and answers 400/404 by them", key, where))
+		})
+	}
+	var ks []string
+	for k := range switches {
+		ks = append(ks, k)
+	}
+	sort.Strings(ks)
+	c.R.Extra["session_switches"] = ks
+	if n == 0 {
+		c.R.Hold("R-session-switch", "the session switch is never turned on outside the constructor's defaults", "", sprintf("%v", ks))
+	}
 }
